@@ -273,27 +273,16 @@ theorem slice_length (b : Bytes) (s e : Nat) (h : e ≤ b.length) : (slice b s e
   unfold slice
   simp [List.length_drop, List.length_take, Nat.min_eq_left h]
 
-theorem cutHaystack_single_le (sc : SCfg) (hml : sc.multiLine = false) (bytes : Bytes) (re : Nat) : (cutHaystack sc bytes re).length ≤ re := by
-  unfold cutHaystack
-  simp only [hml, Bool.false_eq_true, ↓reduceIte, List.length_take]
-  have : trimLineTerminator sc.lt bytes 0 re ≤ re := by
-    unfold trimLineTerminator
-    split
-    · simp only
-      split <;> omega
-    · exact Nat.le_refl _
-  omega
-
-/-- A sane matcher's matches, shifted to the reported lines, can always be sliced out of them: in single-line mode
-the haystack ends with the line, in multi-line mode the printers clamp a match to the end of the range. -/
+/-- A sane matcher's matches, shifted to the reported lines, can always be sliced out of them: in line-oriented
+mode the haystack is the line's own content, in multi-line mode the printers clamp a match to the end of the range. -/
 theorem inRange_all (sc : SCfg) (find : Oracle) (buf : Bytes) (rs re : Nat)
-    (_hrs : rs ≤ re) (hre : re ≤ buf.length)
-    (hs : Sane (find (cutHaystack sc buf re)) (cutHaystack sc buf re).length) :
+    (hrs : rs ≤ re) (hre : re ≤ buf.length)
+    (hs : Sane (find (shownHay sc buf rs re)) (shownHay sc buf rs re).length) :
     InRange (slice buf rs re) (shiftSpans rs (findIterInContext sc find buf rs re)) := by
   intro m hm
   unfold shiftSpans at hm
   obtain ⟨m0, hm0, rfl⟩ := List.mem_map.mp hm
-  obtain ⟨h1, h2, _, h4, _⟩ := findIterInContext_collected sc find buf rs re hs m0 hm0
+  obtain ⟨h1, h2, h4⟩ := findIterInContext_inside sc find buf rs re hrs hs m0 hm0
   rw [slice_length buf rs re hre]
   simp only
   omega
@@ -301,9 +290,9 @@ theorem inRange_all (sc : SCfg) (find : Oracle) (buf : Bytes) (rs re : Nat)
 /-- well-formed event whose haystack the matcher answers sanely -/
 def EventOk (sc : SCfg) (find : Oracle) : Event → Prop
   | .matched buf rs re _ _ =>
-    rs ≤ re ∧ re ≤ buf.length ∧ Sane (find (cutHaystack sc buf re)) (cutHaystack sc buf re).length
+    rs ≤ re ∧ re ≤ buf.length ∧ Sane (find (shownHay sc buf rs re)) (shownHay sc buf rs re).length
   | .context _ bytes _ _ =>
-    Sane (find (cutHaystack sc bytes bytes.length)) (cutHaystack sc bytes bytes.length).length
+    Sane (find (shownHay sc bytes 0 bytes.length)) (shownHay sc bytes 0 bytes.length).length
   | .contextBreak => True
 
 theorem writeBegin_panicked (jc : JsonCfg) (st : JsonState) : (st.writeBegin jc).panicked = st.panicked := by
